@@ -92,7 +92,8 @@ Procedure:
 Note: We do not start routines for targets that are not selected. Therefore,
 we need to check if descendants exist before starting/cancelling them.
 
-Walk will then wait for all the goroutines to finish.
+Walk will then wait for all the goroutines to finish or for the context to be cancelled
+(in which case it does not wait) and returns a copy of the completions recorded until then.
 */
 func (w *Walker) Walk(
 	ctx context.Context,
@@ -152,19 +153,37 @@ func (w *Walker) Walk(
 
 	select {
 	case <-done:
-		return w.completions, nil
+		completions, _ := w.snapshot()
+		return completions, nil
 	case <-ctx.Done():
 		logger.Debugf(
 			"context cancelled, cancelling all workers",
 		)
 		w.cancelAll()
 
-		if w.failFastTriggered {
-			return w.completions, nil
+		// Node routines may still be running (and completing) at this point:
+		// the caller must not get to see the map they write to.
+		completions, failFastTriggered := w.snapshot()
+		if failFastTriggered {
+			return completions, nil
 		} else {
-			return w.completions, ctx.Err()
+			return completions, ctx.Err()
 		}
 	}
+}
+
+// snapshot returns a copy of the completions recorded so far and whether failFast was triggered.
+// w.completions itself never leaves the walker: node routines that outlive Walk
+// (cancellation does not wait for them) keep writing to it under doneMutex.
+func (w *Walker) snapshot() (CompletionMap, bool) {
+	w.doneMutex.Lock()
+	defer w.doneMutex.Unlock()
+
+	completions := make(CompletionMap, len(w.completions))
+	for targetLabel, completion := range w.completions {
+		completions[targetLabel] = completion
+	}
+	return completions, w.failFastTriggered
 }
 
 // cancelNode cancels a target if it is present in the graph (not idempotent!)
